@@ -20,7 +20,9 @@ def load_corpus(prop):
     out = []
     for path in sorted(glob.glob(os.path.join(C.VERIF, "corpus", prop, "*.json"))):
         with open(path) as fh:
-            out.append(json.load(fh)["case"])
+            case = json.load(fh)["case"]
+        if "prog" in case:          # other clusters keep their witnesses in the same directory
+            out.append(case)
     return out
 
 
@@ -48,13 +50,18 @@ def python_script(case):
 
 def run(prop, tier, cone, props_file, spec, gen_cases, nquick, nthorough, rule, replay=None):
     out = C.Outcome(prop, tier)
-    rng = random.Random(C.seed() * 104729 + sum(map(ord, prop)))
     build = C.regenerate_and_build()
     problems = C.proof_section(out, build, cone, props_file)
+    run_into(out, build, problems, prop, tier, spec, gen_cases, nquick, nthorough, rule, replay)
+    return out.finish()
+
+
+def run_into(out, build, problems, prop, tier, spec, gen_cases, nquick, nthorough, rule, replay=None):
+    rng = random.Random(C.seed() * 104729 + sum(map(ord, prop)))
     if not build.ok_for(MODEL_FILES):
         out.violation("the executable model does not build: " + "; ".join(problems),
                       {"problems": problems, "log": build.log[-3000:]}, found_input=False)
-        return out.finish()
+        return
     if replay:
         with open(replay) as fh:
             cases = [json.load(fh)["case"]]
@@ -123,23 +130,33 @@ def run(prop, tier, cone, props_file, spec, gen_cases, nquick, nthorough, rule, 
             payload.update({"case": c, "observation": o, "model_observation": model_observation(c)})
         out.violation(what, payload, found_input=False)
     samples = [{"program": c["prog"], "ops": c["ops"], "observation": o} for c, o in live[:1]]
+    cov = out.coverage
+    rule = (cov["rule"] + " || " if cov.get("rule") else "") + rule
+    n_ops += cov.get("evaluations", 0)
+    ndistinct = len(distinct) + cov.get("distinct_nontrivial", 0)
+    samples = cov.get("samples", []) + samples
+    nlive = len(live) + cov.get("traces_validated_against_impl", 0)
     out.coverage.update({
         "evaluations": n_ops,
-        "distinct_nontrivial": len(distinct),
+        "distinct_nontrivial": ndistinct,
         "rule": rule,
         "samples": samples,
         "programs": len(cases),
-        "traces_validated_against_impl": len(live),
-        "vm_compute_cases": len(live),
-        "corpus_cases": ncorpus,
+        "traces_validated_against_impl": nlive,
+        "run_cluster_vm_compute_cases": len(live),
+        "run_cluster_corpus_cases": ncorpus,
         "programs_skipped_trace_too_long": skipped,
         "operations_with_reentry": n_reentrant,
         "operations_ending_in_user_exception": n_faulted,
         "operations_with_injected_cancellation": n_cancelled,
-        "disagreements": len(disagreements),
-        "spec_failures_on_implementation": len(spec_fail),
-        "distribution": dict(shapes),
+        "run_cluster_disagreements": len(disagreements),
+        "run_cluster_spec_failures_on_implementation": len(spec_fail),
+        "run_cluster_distribution": dict(shapes),
     })
-    out.assumptions = ["user code is scripts (calls, awaits, verdict); bodies are ranked (generator invariant)",
-                       "async calls are driven by hand (coro.send / coro.throw) in the caller's context"]
-    return out.finish()
+    cov.setdefault("vm_compute_cases", len(live))
+    cov.setdefault("corpus_cases", ncorpus)
+    cov.setdefault("disagreements", len(disagreements))
+    cov.setdefault("spec_failures_on_implementation", len(spec_fail))
+    cov.setdefault("distribution", dict(shapes))
+    out.assumptions += ["user code is scripts (calls, awaits, verdict); bodies are ranked (generator invariant)",
+                        "async calls are driven by hand (coro.send / coro.throw) in the caller's context"]
